@@ -23,7 +23,7 @@ def parse_family(focus, quick_n, thorough_n, maxlen=7, inputs_per=3):
 
 PROPS = {
     'C01': dict(level='proof', theorem_modules=['C01', 'C09Lookahead', 'Accepted', 'BuildSet'], min_theorems=22, tags=['C01'], crash_counts=True,
-                gen=parse_family('C01', 3000, 40000), flavours=['c'],
+                gen=parse_family('C01', 3000, 40000), flavours=['c', 'c-weak'],
                 rule='random grammars (1-5 nonterminals, nullable/recursive/ambiguous/error shapes) x sampled sentences, prefixes, mutations, random strings; every input parsed at lookahead 0,1,2 with random one_parse/cost and recovery on/off; non-trivial = distinct case text with at least one judged parse',
                 assumptions=COMMON_ASSUME + ['accepts_iff_sentence is proved for the level-0/1 model and accepts2_iff_sentence for the level-2 model, for every grammar readGrammar accepts (Props/Accepted.lean); recovery-on runs of non-sentences are judged by the recovery model; the set construction of build_new_set / expand_new_start_set / set_insert (start, derived and initial situations, cores shared by start situations) is modelled step for step at levels 0/1 (Model/BuildSet.lean) and proved to compute the abstract sets (buildPLC_eq_buildPL, acceptsC_iff_sentence); the tie compares the situations of every set with multiplicity, their order is only counted']),
     'C02': dict(level='proof', theorem_modules=['C02', 'Accepted', 'MakeParse', 'MakeParseSound', 'BuildSet'], min_theorems=30, tags=['C02'], crash_counts=True,
@@ -31,29 +31,29 @@ PROPS = {
                 rule='random grammars with random translations (permuted, partial, nil-padded, pass-through, empty); sentences <= 7 tokens; one_parse=1 cost=0; tree compared with the enumerated translations of all derivations',
                 assumptions=COMMON_ASSUME + ['enumeration capped at 3000 derivations per input and 9 tokens (depth_bound: the enumerator is complete for every accepted grammar)', 'C02 is a theorem about the step-for-step models: for every grammar readGrammar accepts and every sentence, the model of make_parse in one-parse mode, run on the parse list of the model of build_pl (levels 0/1), ends within an explicit fuel bound with a table without ALT node that denotes exactly the translation of a derivation of the input, TERM nodes carrying code and position of their tokens (accepted_makeParse_one, makeParse_one_sound, makeParse_one_total, makeParse_one_terms); the two step models are tied to the C code on every parse (identical exports)']),
     'C03': dict(level='proof', theorem_modules=['C03', 'C02', 'MakeParse', 'MakeParseSound', 'MakeParseTotal', 'HeapWf'], min_theorems=30, tags=['C03'], crash_counts=True,
-                gen=parse_family('C03', 3000, 40000), flavours=['c'],
+                gen=lambda seed, tier: parse_family('C03', 3000, 40000)(seed, tier) + capacity_cases(seed, ('L-amb', 'L-deep')), flavours=['c', 'c-weak'],
                 rule='as C02 with one_parse=0: set of trees denoted by the DAG vs set of translations of all derivations',
                 assumptions=COMMON_ASSUME + ['the sound half of C03 is a theorem about the step model of make_parse (makeParse_all_sound: every tree the all-parses forest denotes is the translation of a derivation of the input, for every accepted grammar and input); the all-parses run always ends with a well-formed acyclic forest (makeParse_all_total with the explicit fuel mpAllFuel, makeParse_heap_wf, makeParse_all_not_cyclic; the fuel is exponential and must be: known finding D31; polynomial when no pass-through rule derives itself: makeParse_all_total_poly); the complete half is false of the C code (known finding D9, makeParse_forest_incomplete) and is judged per run with the attribution rule of known_findings.txt']),
-    'C04': dict(level='proof', theorem_modules=['C04', 'PruneC', 'HeapWf', 'MakeParseTotal'], min_theorems=30, tags=['C04'], crash_counts=True,
-                gen=parse_family('C04', 3000, 40000), flavours=['c'],
+    'C04': dict(level='proof', theorem_modules=['C04', 'PruneC', 'HeapWf', 'MakeParseTotal', 'RecoveredCost'], min_theorems=30, tags=['C04'], crash_counts=True,
+                gen=lambda seed, tier: parse_family('C04', 3000, 40000)(seed, tier) + capacity_cases(seed, ('L-amb', 'L-deep')), flavours=['c'],
                 rule='random grammars with costs 0-5 (ties included); sentences <= 7 tokens; cost flag on, one_parse in {0,1}, parse_free given or NULL; denoted set vs argmin of total cost over all translations, every cost field vs the additive law',
                 assumptions=COMMON_ASSUME + ['prune theorems are about the Lean pruning model of a forest (Spec/Forest.lean); find_minimal_translation itself (prune_to_minimal with the sign of the cost field as visited flag and the memo table of alternative chains, traverse_pruned_translation, the freeing loop) is modelled step for step on the heap of the make_parse model (Model/PruneC.lean) and proved to denote exactly prune of the unfolded forest, to restore every cost field, and to free exactly the cells that became unreachable, each once (pruneC_denote, pruneC_minimal_all/one, pruneC_costs_restored, pruneC_frees, pruneC_memo_sound) under the heap well-formedness WfHeap, which is proved for every heap the make_parse model builds on the parse list of an accepted input (makeParse_heap_wf; acyclicity from a rank by span length and unit steps); accepted_cost_parse composes the chain for every accepted grammar and sentence: every tree of the forest is a translation, the pruned result denotes exactly the minimal-cost trees of the forest make_parse built (not of all translations: D9) with accumulated cost fields, and the freed cells are exactly those that became unreachable, each once; accepted_cost_parse_total removes the last hypothesis (the all-parses run of the make_parse model always ends: makeParse_all_total); the tie runs both models on the dumped parse list and compares the exported forest and the number of freed blocks']),
     'C06': dict(level='proof', theorem_modules=['C06', 'C01', 'RecoveryAccepted'], min_theorems=12, tags=['C06'], crash_counts=True,
                 gen=parse_family('C06', 3000, 40000, maxlen=9), flavours=['c'],
                 rule='grammars with and without error rules; non-sentences (mutated sentences, prefixes, random strings); recovery off (exact argument tuple) and on (well-formedness of every callback, strictly increasing error tokens, first error token = model)',
                 assumptions=COMMON_ASSUME + ['firstError_iff_viable / firstError2_iff_viable need every nonterminal productive (strict grammars); callback theorems hold for every accepted grammar and input from the explicit fuel recoveryFuel on (Props/RecoveryAccepted: accepted_calls_wf, accepted_first_call)']),
-    'C07': dict(level='proof', theorem_modules=['C07', 'C06', 'C02', 'RecoveredParse', 'RecoveryAccepted'], min_theorems=12, tags=['C07'], crash_counts=True,
-                gen=lambda seed, tier: parse_family('C07', 3000, 40000, maxlen=9)(seed, tier) + [c for c in long_c09_cases(seed, 'quick') if 'farback' in c[0]], flavours=['c'],
+    'C07': dict(level='proof', theorem_modules=['C07', 'C06', 'C02', 'RecoveredParse', 'RecoveryAccepted', 'RecoveredCost'], min_theorems=12, tags=['C07'], crash_counts=True,
+                gen=lambda seed, tier: parse_family('C07', 3000, 40000, maxlen=9)(seed, tier) + [c for c in long_c09_cases(seed, 'quick') if 'farback' in c[0]], flavours=['c', 'c-weak'],
                 rule='grammars with 0..3 error rules, non-sentences <= 9 tokens, recovery_match 1..5, one/all parses, lookahead 0-2: return code, non-NULL tree, tree vs translations of the repaired input (read off the model parse list), ignored-token accounting, callbacks and final parse list vs the step-for-step recovery model',
                 assumptions=COMMON_ASSUME + ['the recovery search is proved to finish within recoveryFuel (exponential in the input length, finding D28) and recovered_parse_one / recovered_parse_all take that fuel; theorems with the hypothesis r.ok hold for any smaller fuel on which the search happened to finish', 'after a recovery the all-parses forest is sound but may be incomplete (finding D9), as without recovery']),
     'C08': dict(level='proof', theorem_modules=['C08', 'C06', 'RecoveryAccepted'], min_theorems=4, tags=['C08'], crash_counts=True,
                 gen=parse_family('C08', 3000, 40000, maxlen=9), flavours=['c'],
                 rule='grammars with error rules, non-sentences <= 9 tokens, recovery_match 1..5, lookahead 0-2: the number of tokens the first callback reports ignored vs the minimum over all simple recoveries (back position with `. error` x forward skip) computed by brute force from the statement over the model sets',
                 assumptions=COMMON_ASSUME + ['recover_minimal is proved for the recovery model; accepted_recover_minimal removes the hypothesis r.ok for every accepted grammar from the explicit fuel recoveryFuel on; the oracle simpleRecoveryCosts is the property statement itself']),
-    'C09': dict(level='proof', theorem_modules=['C09', 'C09Lookahead', 'C01', 'BuildSet2'], min_theorems=12, tags=['C09'], crash_counts=True,
+    'C09': dict(level='proof', theorem_modules=['C09', 'C09Lookahead', 'C01', 'BuildSet2', 'LaIndep'], min_theorems=12, tags=['C09'], crash_counts=True,
                 gen=lambda seed, tier: parse_family('C09', 2400, 30000)(seed, tier) + long_c09_cases(seed, tier) +
                                        gen.gen_parse_cases(seed + 5, 3000 if tier == 'thorough' else 500, 'C09', maxlen=9, kind='recov-cache', force=dict(rec=1)) +
-                                       gen.gen_parse_cases(seed + 6, 1500 if tier == 'thorough' else 150, 'C09', maxlen=9, kind='stmt-list'), flavours=['c'],
+                                       gen.gen_parse_cases(seed + 6, 1500 if tier == 'thorough' else 150, 'C09', maxlen=9, kind='stmt-list'), flavours=['c', 'c-weak'],
                 rule='each input parsed at lookahead -3,0,1,2,7 and at several debug levels with otherwise identical flags: all observables (rc, callbacks, ambiguity flag, denoted tree set with costs) must be identical; goto-cache self-check hook on every parse',
                 assumptions=COMMON_ASSUME + ['verdict_indep_of_la012 / firstError_indep_of_la012 cover all three levels (level 2: accepts2_iff_sentence); the level-2 set construction of the C code (contexts, the in-place context fixpoint of expand_new_start_set) is modelled step for step (Model/BuildSet2.lean) and proved to compute the level-2 set model (buildPLC2_eq_buildPL2, ctxLoop_least_fixpoint, ctxLoop_order_irrelevant, acceptsC_indep_of_la012)']),
     'C05': dict(level='proof', theorem_modules=['C05', 'MakeParseSound', 'MakeParseFlag'], min_theorems=24, tags=['C05'], crash_counts=True,
@@ -75,7 +75,8 @@ PROPS = {
                                         gen.gen_history_cases(seed + 2, 3000 if tier == 'thorough' else 300) +
                                         gen.gen_descr_cases(seed + 3, 3000 if tier == 'thorough' else 300) +
                                         gen.gen_big_symbol_cases(seed + 4, 40 if tier == 'thorough' else 6) +
-                                        gen.gen_name_length_cases(seed + 5, 1500 if tier == 'thorough' else 250)), flavours=['c', 'cxx'],
+                                        gen.gen_name_length_cases(seed + 5, 1500 if tier == 'thorough' else 250) +
+                                        capacity_cases(seed + 6)), flavours=['c', 'cxx'],
                 rule='the case families of C01, C07, C14/C15 and C11 plus grammars with hundreds of symbols (C++ containers grow past their initial sizes) are run through libyaep and through class yaep (libyaep++); the two observation streams (return codes, messages, callbacks, flags, exported trees, free_tree traces, hook dumps) must be identical line by line, and both are judged against the same Lean model',
                 assumptions=COMMON_ASSUME + ['cxx_methods_forward is about the method bodies the translator extracts from yaep.cpp (regex-based, checked for one statement per method); that yaep.cpp includes yaep.c compiled as C++ and uses the C++ containers is covered by the stream comparison, not by a theorem']),
     'C12': dict(level='exploration', theorem_modules=['C01', 'C19', 'CodeTable', 'TermSet', 'SitTable', 'MakeParseTotal'], min_theorems=4, tags=['C12'], crash_counts=True,
@@ -96,7 +97,7 @@ PROPS = {
                 rule='every caller-side parse_alloc / parse_free / termcb event of every parse is logged with block ids: frees must hit live blocks of the same parse exactly once, everything reachable from the root must lie in live blocks (walk before and after yaep_free_grammar under ASan with real frees), yaep_free_tree must release all blocks of the parse and call termcb once per TERM node; definitions are handed over as heap copies that are scribbled and freed right after the defining call',
                 assumptions=COMMON_ASSUME + ['that the C pointer graph is the exported node table is observed, not proved; partial: memory effects are runtime truth (ASan)']),
     'C14': dict(level='proof', theorem_modules=['C14', 'SitTable'], min_theorems=8, tags=['C14', 'C15', 'C01', 'C02', 'C05', 'C06', 'C07', 'C10', 'C13', 'C09'], crash_counts=True,
-                gen=lambda seed, tier: gen.gen_history_cases(seed, 12000 if tier == 'thorough' else 2400), flavours=['c'],
+                gen=lambda seed, tier: gen.gen_history_cases(seed, 12000 if tier == 'thorough' else 2400), flavours=['c', 'c-weak'],
                 rule='random histories of <= 40 API calls over up to 3 live grammar objects (create, set, define good/defective, redefine, parse with sentences / non-sentences / invalid codes / NULL allocators, error queries, free_tree, free in any order); every return value, callback and tree is compared with the history-free model (a function of the object definition and settings only); library allocator accounting must be zero after all objects are freed',
                 assumptions=COMMON_ASSUME + ['the model is history-free by construction (Model/Api.lean); any deviation of any call is therefore a history dependence']),
     'C15': dict(level='proof', theorem_modules=['C15', 'Generated', 'CodeTable'], min_theorems=12, tags=['C15'], crash_counts=True,
@@ -454,7 +455,33 @@ def long_c09_cases(seed, tier):
         k += 1; c.append('op %d parse 0 user user 12 %s' % (k, toks))
     c += ['op %d free 0' % (k + 1), 'end']
     cases.append(c)
+    # one nonterminal occurrence with more than 64 / 128 different origins (all parses, cost flag): the vector of
+    # origin states of make_parse outgrows its first block while the candidates loop is running
+    c = ['case L-amb long', 'notree', 'quietev', 'text 0 %s' % "S : S S # n (0 1) | 'a' # 0 ;".encode().hex(), 'op 1 create 0', 'op 2 descr 0 0 1', 'op 3 set 0 rec 0']
+    k = 3
+    for n, one, cost in ((66, 0, 0), (67, 0, 0), (80, 1, 1), (140, 0, 0)):
+        for what, v in (('one', one), ('cost', cost)):
+            k += 1; c.append('op %d set 0 %s %d' % (k, what, v))
+        k += 1; c.append('op %d parse 0 user user 12 rep %d 1 97' % (k, n))
+    c += ['op %d free 0' % (k + 1), 'end']
+    cases.append(c)
+    # more than 1000 recovery states pending at once (recovery_match larger than the input): the stack of
+    # recovery states grows past 32 KiB and is popped down again
+    rs = "P : # - | P S # p (0 1) ; S : 'a' ';' # s | error ';' # e ;"
+    c = ['case L-recstack long', 'notree', 'quietev', 'text 0 %s' % rs.encode().hex(), 'op 1 create 0', 'op 2 descr 0 0 1', 'op 3 set 0 rec 1']
+    k = 3
+    for n, la in ((1100, 1), (1500, 0)):
+        k += 1; c.append('op %d set 0 la %d' % (k, la))
+        k += 1; c.append('op %d set 0 match %d' % (k, 2 * n + 10))
+        k += 1; c.append('op %d parse 0 user user 12 97 97 59 rep %d 2 97 59' % (k, n))
+    c += ['op %d free 0' % (k + 1), 'end']
+    cases.append(c)
     return cases
+
+
+def capacity_cases(seed, names=('L-cap', 'L-farback', 'L-deep', 'L-amb', 'L-recstack')):
+    """the directed cases of long_c09_cases that take a container of the parser past a capacity"""
+    return [c for c in long_c09_cases(seed, 'quick') if c[0].split()[1] in names]
 
 
 def corpus_cases(pid, sub=''):
@@ -510,7 +537,12 @@ def run_property(pid, P, cases, tier, seed, replay=False, boost=1):
         w = l.split()
         return not (len(w) > 2 and w[2] == 'lib') and not (len(w) > 1 and w[1] == 'end') and not l.startswith('o !')
     for flavour in P.get('flavours', ['c']):
-        res = pipeline.run_cases(cases, flavour, kind=P.get('kind', 'yaep'))
+        fcases = cases
+        if flavour.endswith('-weak'):
+            # all hash values collide: every lookup is a linear search, so only the small cases (the
+            # judge runs the full model on them) take part
+            fcases = [c for c in cases if c[0].split()[-1] not in ('long', 'perf', 'hostile') and sum(len(l) for l in c) < 20000]
+        res = pipeline.run_cases(fcases, flavour, kind=P.get('kind', 'yaep'))
         bycase = {}
         obs_by_flavour[flavour] = res.obs
         for v in res.verdicts:
@@ -528,7 +560,7 @@ def run_property(pid, P, cases, tier, seed, replay=False, boost=1):
                 seen.add(h)
         for cid, st in res.stats.items():
             feats.update(case_features(st))
-        cov['evaluations'] += len(cases)
+        cov['evaluations'] += len(fcases)
         if not cov['samples'] and cases:
             # one corpus case (past failure, runs first) and two generated ones
             cov['samples'] = [cases[0], cases[len(cases) // 2], cases[-1]] if len(cases) > 2 else list(cases)
